@@ -103,11 +103,12 @@ def run_case(ctx, rng, index, casedir):
     scaff = rng.choice([1, 1, 2, 2, 3, rng.randint(3, 10), rng.randint(11, 60)])
     if big:
         scaff = rng.randint(100, 400)
-    default_mode = (index % 16 == 3)  # no --chromosome_order: the documented default order applies
+    default_mode = (index % 13 == 3)  # no --chromosome_order: the documented default order applies
     if default_mode:
         from gaftools.cli.order_gfa import DEFAULT_CHROMOSOME
         dn = list(DEFAULT_CHROMOSOME)
-        g = OC.gen_graph(rng, names=dn, scaffolds=rng.choice([1, 2, 3]), id_style=rng.choice(["s", "name"]))
+        g = OC.gen_graph(rng, names=dn, scaffolds=rng.choice([2, 3]), id_style=rng.choice(["s", "name"]),
+                         kinds=["snp", "ins", "del", "bridge", "refmulti", "inv"], end_style="leaf")
         sit["default_chromosome_order_runs"] += 1
     else:
         g = OC.gen_graph(rng, n_chrom=rng.choice([1, 2, 3, 4]) if not big else 1, scaffolds=scaff,
